@@ -1,0 +1,58 @@
+//go:build verif
+
+package parameters
+
+// Contracts for the goverif VC generator (/verif). Comment-only file: it adds no code.
+
+// Representation invariant of FlagsT (stated where needed): every stored flag value is non-nil.
+//@ func newFlagsT [C24 C19] fresh
+//@   ensures result != nil && result.flags != nil
+//@   ensures forallkey(k, result.flags, result.flags[k] != nil)
+
+//@ func (*FlagsT).set [C24 C19]
+//@   requires f != nil && f.flags != nil
+//@   requires forallkey(k, f.flags, f.flags[k] != nil)
+//@   modifies mapof(f.flags)
+//@   ensures imp(result == nil, has(f.flags, flag))
+//@   ensures forallkey(k, f.flags, f.flags[k] != nil)
+
+//@ func (*FlagsT).GetMap [C24 C19]
+//@   requires f != nil
+//@   requires forallkey(k, f.flags, f.flags[k] != nil)
+
+//@ func (*FlagsT).GetValue [C24 C19]
+//@   requires f != nil
+//@   requires forallkey(k, f.flags, f.flags[k] != nil)
+//@   ensures result != nil
+
+// ParseFlags. Postconditions: the error/nil relation and "a trailing flag without its value is an
+// error". Step contracts of the argument loop (one argument = one step, $idx = its position):
+//  S1 after `--` (or the first positional under StrictFlagPlacement) every argument is additional;
+//  S2 flag parsing stops only when additional arguments are allowed, on `--` or a positional;
+//  S3 an alias is followed until a non-alias flag is reached (chains of any length);
+//  S4 `additional` grows by at most the current argument;
+//  S5 a value following a typed flag is consumed by that flag, not added to additional;
+//  S6 a positional argument is accepted only when additional arguments are allowed.
+//@ func ParseFlags [C24 C19]
+//@   requires args != nil
+//@   ensures imp(result2 != nil, result == nil && result1 == nil)
+//@   ensures imp(result2 == nil, result != nil && result.flags != nil && forallkey(k, result.flags, result.flags[k] != nil))
+//@   ensures imp(result2 == nil, previous == "")
+//@   loop 1 invariant flags != nil && flags.flags != nil && fresh(additional) && forallkey(k, flags.flags, flags.flags[k] != nil)
+//@   loop 1 step imp(old(ignoreFlags), ignoreFlags && len(additional) == len(old(additional))+1 && additional[len(additional)-1] == params[$idx])
+//@   loop 1 step imp(ignoreFlags && !old(ignoreFlags), args.AllowAdditional && (params[$idx] == "--" || (args.StrictFlagPlacement && !$hasPrefix(params[$idx], "-") && old(previous) == "")))
+//@   loop 1 step imp(!old(ignoreFlags) && $hasPrefix(params[$idx], "-") && !(ignoreFlags && !old(ignoreFlags)), !$hasPrefix(args.Flags[params[$idx]], "-"))
+//@   loop 1 step len(additional) == len(old(additional)) || (len(additional) == len(old(additional))+1 && additional[len(additional)-1] == params[$idx])
+//@   loop 1 step forall(k, 0, len(old(additional)), additional[k] == old(additional[k]))
+//@   loop 1 step imp(!old(ignoreFlags) && !$hasPrefix(params[$idx], "-") && old(previous) != "", previous == "" && len(additional) == len(old(additional)))
+//@   loop 1 step imp(!old(ignoreFlags) && !$hasPrefix(params[$idx], "-") && old(previous) == "", args.AllowAdditional && len(additional) == len(old(additional))+1)
+//@   loop 2 invariant flags != nil && flags.flags != nil && 0 <= i && i < len(params) && fresh(additional) && forallkey(k, flags.flags, flags.flags[k] != nil)
+
+// FlagValueT.Any: both implementations (flagValue, nullValue) are getters; each is verified to
+// modify nothing, which is what the interface-method contract below assumes at call sites.
+//@ extern (lang/parameters.FlagValueT).Any pure
+//@ func (*flagValue).Any [C24 C19]
+//@   requires fv != nil
+//@   modifies nothing
+//@ func (*nullValue).Any [C24 C19]
+//@   modifies nothing
